@@ -239,6 +239,13 @@ Theorem C03_agree_implies_holds :
 Proof. exact agree_implies_holds. Qed.
 Print Assumptions C03_agree_implies_holds.
 
+(* exactly what the check computes per case: the agree bit (which includes the well-formedness
+   test of the case) implies the holds bit *)
+Theorem C03_verdict_agree_implies_holds :
+  forall c : c03_case, fst (fst (c03_verdict c)) = true -> snd (fst (c03_verdict c)) = true.
+Proof. exact verdict_agree_implies_holds. Qed.
+Print Assumptions C03_verdict_agree_implies_holds.
+
 (* the eviction probe of a state that stands for a C02 state shows its ring, oldest first *)
 Theorem C03_probe_shows_eviction_order :
   forall tb cf s m, 1 <= cf_max cf -> stands_for cf s m -> small (Boltons.Model.C02_Model.ring m) ->
